@@ -227,7 +227,11 @@ namespace occa {
                             concatValue);
 
       if (concatTokens.size() != 1) {
-        concatTokens[0]->origin
+        // [##] may also produce no token at all
+        fileOrigin errorOrigin = (concatTokens.size()
+                                  ? concatTokens[0]->origin
+                                  : source->origin);
+        errorOrigin
           .from(false, thisToken->origin)
           .printError("Unable to concat tokens");
         ++pp.errors;
